@@ -85,7 +85,8 @@ Params(f) ==
     [] f = "RadShock" -> \* Cv in units of the default 1.4472799784454e12 erg/(g eV)
                          [solver |-> Pick({"ED", "nED", "LM_nED"}, {"FLD_LP", "FLD_1", "FLD_2"}), M0 |-> Pick({<<6, 5>>, <<2, 1>>}, {<<21, 20>>, <<3, 1>>, <<5, 1>>}),
                           gamma |-> Pick({<<5, 3>>, <<7, 5>>}, {}), Cv |-> Pick({<<1, 1>>, <<1, 2>>}, {}), Tref |-> Pick({<<100, 1>>, <<200, 1>>}, {}),
-                          rho0 |-> Pick({<<1, 1>>}, {<<1, 2>>})]
+                          rho0 |-> Pick({<<1, 1>>}, {<<1, 2>>}),
+                          opac |-> {"constant", "lowrie", "kramers+scattering"}]      \* cross-section coefficients and exponents (resolved by the driver)
     [] f = "SuOlson" -> [epsilon |-> Pick({<<1, 1>>, <<1, 10>>}, {<<2, 1>>, <<1, 2>>}), opac |-> Pick({<<1, 1>>, <<5, 2>>}, {}),
                          trad_bc_ev |-> Pick({<<1000, 1>>, <<300, 1>>}, {})]
     [] f = "Rectangle" -> [kappa |-> Pick({<<1, 1>>, <<1, 2>>}, {}), a |-> Pick({<<2, 1>>, <<3, 1>>}, {}), b |-> Pick({<<2, 1>>, <<1, 1>>}, {}),
